@@ -568,7 +568,7 @@ var clauses = []string{"tree", "finite", "types", "order", "counts", "parents", 
 	"eff_m", "eff_c", "eff_r", "eff_s", "iter", "getpage", "numpages", "callbacks"}
 
 func traceOpts(ctx *core.Ctx, clause string) core.TLCOpts {
-	o := core.TLCOpts{Dir: "tree", Module: "Trace_PageTree", Cfg: "Trace_PageTree.cfg", XssMB: 1024, XmxMB: 3000,
+	o := core.TLCOpts{Dir: "tree", Module: "Trace_PageTree", Cfg: "Trace_PageTree.cfg", XssMB: 1024, XmxMB: 2000,
 		Timeout: ctx.Dur(10, 30)}
 	if clause != "" {
 		o.Env = map[string]string{"CLAUSE": clause}
